@@ -427,7 +427,7 @@ fn window_call(rng: &mut Rng) -> Call<WindowStatement> {
         _ => {
             let n = rng.below(5) as u32;
             call("frame", "frame", move |s: &mut WindowStatement| {
-                s.frame_between(FrameType::Rows, Frame::Preceding(n), Frame::CurrentRow);
+                s.frame_between(if n % 2 == 0 { FrameType::Rows } else { FrameType::Range }, Frame::Preceding(n), Frame::CurrentRow);
             })
         }
     }
